@@ -88,6 +88,16 @@ class System(ListeningSystem):
         if isinstance(self.data_socket, socket.socket):
             self.data_socket.close()
 
+    def system_stop(self):
+        self.stop.value = True
+        timer = self.data_timer
+        if timer:
+            timer.cancel()
+            timer.join()
+        if isinstance(self.data_socket, socket.socket):
+            self.data_socket.close()
+        return super().system_stop()
+
     def parse(self, byte):
         if byte in self.tail:
             msg = self.msg
@@ -244,6 +254,7 @@ class System(ListeningSystem):
             self._send_packet,
             args=(self.stop, self.pause)
         )
+        self.data_timer.daemon = True
         self.data_timer.start()
         return self.ack
 
@@ -260,6 +271,7 @@ class System(ListeningSystem):
 
         if self.data_timer and self.data_timer.is_alive():
             t = Timer(0, _wait_for_timer)
+            t.daemon = True
             t.start()
 
         return self.ack
@@ -323,6 +335,7 @@ class System(ListeningSystem):
                 self._send_packet,
                 args=(stop, pause)
             )
+            t.daemon = True
             t.start()
             self.data_timer = t
 
